@@ -5,6 +5,7 @@ import FeatModel.Lemmas.C03Bcsr
 import FeatModel.Lemmas.C03Diag
 import FeatModel.Lemmas.C03Arg
 import FeatModel.Lemmas.C03Sqrt
+import FeatModel.Lemmas.C03Into
 /-!
 # C03 — matrix algebra operations equal their dense definitions (property theorems)
 
@@ -29,6 +30,22 @@ is visible to the theorems; what ties the unbounded model to the bounded types i
 positions just below, at and above 2^7, 2^8, 1000 (thorough: 2^15, 2^16, at `IT_ = unsigned int`) and all residues mod 4,
 with the extreme values, ties, diagonal entries, dropped entries and the missing product column at the high end of the
 range, compared with this model and with the independent oracle.
+
+**What is NOT proved (kept current).**  (1) The two BCSR products are proved at block level only (value of every block
+as the fold of `((D_ik·A_kl)·α)·B_lc` in loop order, pattern preserved, reported/never-silently-wrong); there is no
+`Bcsr.entry`-level Σ formula (needs `blockMul` = matrix product, zero-block and block-length lemmas).  (2) A product
+returns the list `R` of new rows; no theorem rebuilds a `Csr` container from `R` (its layout arrays are those of `X`,
+its dense rows are `rowVal R[i]`), so "the result is a container with valid layout" is observed by the correspondence
+(value array compared position by position) rather than proved.  (3) BCSR `axpy`/`scale`/`scale_rows`/`scale_cols`/`lump`/
+row norms are proved on the pod array / block rows, not restated over `Bcsr.entry`; only BCSR `extract_diag` is.
+(4) `shrink` is proved per row (`shrink_spec`); the rebuilt row-pointer array (`rowPtrOf`) and the entry-free result
+container are correspondence-only.  (5) Floating point: exact arithmetic only; `fp-norms` (norms at double against an
+a-priori bound) is supporting evidence.  (6) Entry-free operands (null arrays, KNOWN_FINDINGS c03-edge:F3) are outside
+the model's faithful range: the model returns the zero results, the code crashes; `max/min(_abs)_element` of a matrix
+without stored values has no result in the model (`none`).  (7) Sizes ≥ 2^32 (`IT_ = unsigned int` overflow) are not
+generated.  Hypotheses that remain: `wf` and `sortedRows` (decidable; C02 proves them for every conversion path; the
+generator's oracle asserts them for every case), equal layouts for axpy/scale/scale_rows/scale_cols (the members check
+only rows, columns and nnz).
 -/
 open FeatModel.LA FeatModel.LA.MatAlg FeatModel.Vec
 
@@ -729,6 +746,93 @@ theorem C03.norm_frobenius_floor (A : Csr Rat) :
   have := FeatModel.LA.MatAlg.qsqrt_floor (csrFrobSq A) h0
   rw [← he]
   exact ⟨this.2.1, this.2.2⟩
+
+/-! ## every entry of the output vector is written; axpy / scale over the dense meaning; BCSR layout validity -/
+
+/-- `lump_rows(lump)` on an ARBITRARY pre-filled vector: every position `i < rows` is overwritten with the row sum —
+    in particular a row without stored entries gets 0, nothing of the old content survives; positions `≥ rows` (a longer
+    vector) are untouched.  (`csrLumpInto` is what the driver executes on the harness' 777-filled vector.) -/
+theorem C03.lump_writes_every_entry {α : Type} [CommRing α] (A : Csr α) (out0 : Array α) :
+    (∀ i, (csrLumpInto out0 A)[i]? =
+      if i < A.rows ∧ i < out0.size then some (((csrRow A i).map Prod.snd).sum) else out0[i]?) ∧
+    (out0.size = A.rows → (csrLumpInto out0 A).toList = csrLump A) ∧
+    (∀ i, csrRow A i = [] → (((csrRow A i).map Prod.snd).sum : α) = 0) := by
+  refine ⟨fun i => ?_, fun h => ?_, fun i h => by rw [h]; rfl⟩
+  · unfold csrLumpInto
+    rw [writeAll_getElem?, lumpRow_eq_sum]
+  · unfold csrLumpInto
+    rw [writeAll_toList _ _ _ h]
+    simp [csrLump, csrRows, List.map_map, Function.comp_def]
+
+/-- `row_norm2sqr`, `row_norm2`, scaled `row_norm2sqr` (CSR) on an arbitrary pre-filled vector: every `i < rows` is
+    overwritten (an empty row gets 0 resp. `sqrt 0`), and on a vector of `rows` entries the result is the list version
+    that `C03.rowNorm2Sqr_dense` / `C03.rowNorm2SqrScaled_spec` describe -/
+theorem C03.rowNorms_write_every_entry {α : Type} [CommRing α] (sqrt : α → α) (A : Csr α) (scal out0 : Array α) :
+    (∀ i, (csrRowNorm2SqrInto out0 A)[i]? =
+      if i < A.rows ∧ i < out0.size then some (((csrRow A i).map fun p => p.2 * p.2).sum) else out0[i]?) ∧
+    (∀ i, (csrRowNorm2Into sqrt out0 A)[i]? =
+      if i < A.rows ∧ i < out0.size then some (sqrt (((csrRow A i).map fun p => p.2 * p.2).sum)) else out0[i]?) ∧
+    (out0.size = A.rows → (csrRowNorm2SqrInto out0 A).toList = csrRowNorm2Sqr A ∧
+      (csrRowNorm2Into sqrt out0 A).toList = csrRowNorm2 sqrt A ∧
+      (csrRowNorm2SqrScaledInto out0 A scal).toList = csrRowNorm2SqrScaled A scal) := by
+  refine ⟨fun i => ?_, fun i => ?_, fun h => ⟨?_, ?_, ?_⟩⟩
+  · unfold csrRowNorm2SqrInto; rw [writeAll_getElem?, rowNormSq_eq_sum]
+  · unfold csrRowNorm2Into; rw [writeAll_getElem?, rowNormSq_eq_sum]
+  · unfold csrRowNorm2SqrInto; rw [writeAll_toList _ _ _ h]
+    simp [csrRowNorm2Sqr, csrRows, List.map_map, Function.comp_def]
+  · unfold csrRowNorm2Into; rw [writeAll_toList _ _ _ h]
+    simp [csrRowNorm2, csrRows, List.map_map, Function.comp_def]
+  · unfold csrRowNorm2SqrScaledInto; rw [writeAll_toList _ _ _ h]; rfl
+
+/-- BCSR `lump_rows` / `row_norm2sqr` (plain and scaled) / `row_norm2`: on a vector of `rows·bh` scalars the whole
+    vector is overwritten with the list versions described by `C03.lump_bcsr`, `C03.bcsrRowNorm2Sqr_spec`,
+    `C03.rowNorm2SqrScaled_bcsr`, `C03.bcsrRowNorm2_spec` (block rows without stored blocks get 0) -/
+theorem C03.bcsr_row_members_write_every_entry {α : Type} [CommRing α] (sqrt : α → α) (A : Bcsr α) (sc : Option (Array α))
+    (out0 : Array α) (h : out0.size = A.rows * A.bh) :
+    (bcsrLumpInto out0 A).toList = bcsrLump A ∧
+    (bcsrRowNorm2SqrInto out0 A sc).toList = bcsrRowNorm2Sqr A sc ∧
+    (bcsrRowNorm2Into sqrt out0 A).toList = bcsrRowNorm2 sqrt A :=
+  ⟨into_list _ _ (bcsrLump_length A) out0 h, into_list _ _ (bcsrRowNorm2Sqr_length A sc) out0 h,
+    into_list _ _ (bcsrRowNorm2_length sqrt A) out0 h⟩
+
+/-- **axpy over the dense meaning**: on equal layouts `⟦this'⟧_ij = ⟦this⟧_ij + α·⟦x⟧_ij` for every `(i, j)`
+    (`withVal T l` = `this` with the new value array `l`); also when `x` is `*this` -/
+theorem C03.matrix_axpy_dense {α : Type} [CommRing α] (T X : Csr α) (alpha : α) (ali : Bool) (hT : T.wf = true)
+    (hr : X.rows = T.rows) (hcols : X.cols = T.cols) (hp : X.rowPtr = T.rowPtr) (hc : X.colInd = T.colInd)
+    (hn : X.val.size = T.val.size) (hal : ali = true → X = T) :
+    ∃ l, csrAxpy T X alpha ali = .ok l ∧
+      ∀ i, i < T.rows → ∀ j, (withVal T l).entry i j = T.entry i j + alpha * X.entry i j := by
+  have hs : sameShape X T = true := by simp [sameShape, Csr.usedElements, hr, hcols, hn]
+  obtain ⟨l, h1, _, h3⟩ := C03.matrix_axpy_entrywise T X alpha ali hs hal
+  refine ⟨l, h1, fun i hi j => ?_⟩
+  have := entry_withVal_axpy ((Csr.wf_iff T).mp hT) hp hc hcols l 1 alpha (fun p hp' => by
+    rw [h3 p hp', one_mul, toList_getD, toList_getD]) hi j
+  rw [this, one_mul]
+
+/-- **scale over the dense meaning**: on equal layouts `⟦this'⟧_ij = α·⟦x⟧_ij` -/
+theorem C03.matrix_scale_dense {α : Type} [CommRing α] (T X : Csr α) (alpha : α) (ali : Bool) (hT : T.wf = true)
+    (hr : X.rows = T.rows) (hcols : X.cols = T.cols) (hp : X.rowPtr = T.rowPtr) (hc : X.colInd = T.colInd)
+    (hn : X.val.size = T.val.size) (hal : ali = true → X = T) :
+    ∃ l, csrScale T X alpha ali = .ok l ∧ ∀ i, i < T.rows → ∀ j, (withVal T l).entry i j = alpha * X.entry i j := by
+  have hs : sameShape X T = true := by simp [sameShape, Csr.usedElements, hr, hcols, hn]
+  obtain ⟨l, h1, h3⟩ := C03.matrix_scale_entrywise T X alpha ali hs hal
+  refine ⟨l, h1, fun i hi j => ?_⟩
+  have := entry_withVal_axpy ((Csr.wf_iff T).mp hT) hp hc hcols l 0 alpha (fun p hp' => by
+    rw [h3 p hp', zero_mul, zero_add, mul_comm, toList_getD]) hi j
+  rw [this, zero_mul, zero_add]
+
+/-- BCSR: `SortedCols` of every block row follows from C02's decidable layout validity `Bcsr.wf && Bcsr.sortedRows` -/
+theorem C03.sortedCols_of_valid_bcsr {α : Type} [Zero α] (A : Bcsr α) (h1 : A.wf = true) (h2 : A.sortedRows = true) (i : Nat) :
+    SortedCols (bcsrRow A i) :=
+  sortedCols_of_sortedRows_bcsr A h1 h2 i
+
+/-- outside the pattern of `X` nothing exists before or after a product: a returned row `r` (pattern = pattern of `X_i`,
+    as every product theorem above states) has dense value 0 at every column `j` that `X_i` does not store — the product
+    entries there were dropped (`allow_incomplete = true`) or the call aborted -/
+theorem C03.product_outside_pattern {α : Type} [CommRing α] (X : Csr α) (i : Nat) (r : Row α)
+    (hc : rowCols r = rowCols (csrRow X i)) (j : Nat) (hj : j ∉ rowCols (csrRow X i)) :
+    rowVal r j = 0 ∧ rowVal (csrRow X i) j = 0 :=
+  ⟨rowVal_of_not_mem r j (hc ▸ hj), rowVal_of_not_mem _ j hj⟩
 
 /-! ## the hypotheses are satisfiable by non-trivial values -/
 
